@@ -143,6 +143,10 @@ func (repsim) Generate(rng *Rand, prop, tier string) *Script {
 		"w": 30, "r": 10, "snap": 10, "rm": 4, "mark": 2, "clean": 2, "ckpt": 2, "revert": 2,
 		"reopen": 3, "reload": 2, "resize": 1, "punch": 4, "mode": 1, "rebuilding": 1, "setrev": 1,
 		"cw": 1, "close": 1, "rest": 1, "bad": 2, "sync": 1, "wbig": 6,
+		"wf": 2, "rf": 1, // one data-file call of the operation fails (EIO / ENOSPC / short write)
+	}
+	if prop == "C01" || prop == "C10" {
+		w["wf"], w["rf"] = 5, 2
 	}
 	switch prop {
 	case "C06":
@@ -195,7 +199,9 @@ func (repsim) Generate(rng *Rand, prop, tier string) *Script {
 		op := Op{K: k}
 		secs := nb * (blk / sect)
 		switch k {
-		case "w", "r":
+		case "w", "r", "wf", "rf":
+			op.C = int64(rng.Intn(3)) // wf: 0 EIO, 1 ENOSPC, 2 short write
+			op.D = int64(rng.Intn(3)) // index of the failing data-file call within the operation
 			// bias: block-aligned, straddling, tiny, end-of-volume
 			switch rng.Intn(5) {
 			case 0: // aligned single/multi block
@@ -283,6 +289,47 @@ func (repsim) Generate(rng *Rand, prop, tier string) *Script {
 
 // ---------------------------------------------------------------- executor
 
+// diskArm: the (skip+1)-th data-file call from now fails; reads always with EIO.
+type diskArm struct {
+	skip  int
+	kind  simrt.DiskVerdict
+	fired bool
+	what  string
+}
+
+func (rr *repRun) armDisk(skip int, kind simrt.DiskVerdict) *diskArm {
+	a := &diskArm{skip: skip, kind: kind}
+	rr.diskMu.Lock()
+	rr.diskArm = a
+	rr.diskMu.Unlock()
+	return a
+}
+
+func (rr *repRun) disarmDisk() {
+	rr.diskMu.Lock()
+	rr.diskArm = nil
+	rr.diskMu.Unlock()
+}
+
+func (rr *repRun) diskFn(c simrt.DiskCall) simrt.DiskVerdict {
+	rr.diskMu.Lock()
+	defer rr.diskMu.Unlock()
+	a := rr.diskArm
+	if a == nil || a.fired {
+		return simrt.DiskOK
+	}
+	if a.skip > 0 {
+		a.skip--
+		return simrt.DiskOK
+	}
+	a.fired = true
+	a.what = fmt.Sprintf("%s write=%v off=%d len=%d", filepath.Base(c.Path), c.Write, c.Off, c.Len)
+	if !c.Write {
+		return simrt.DiskEIO
+	}
+	return a.kind
+}
+
 type repRun struct {
 	t         *testing.T
 	s         *Script
@@ -300,6 +347,8 @@ type repRun struct {
 	victimOp  func() // never returns
 	exited    bool   // the replica process called exit
 	punchEver bool   // reclamation has been enabled at some point of this run
+	diskMu    sync.Mutex
+	diskArm   *diskArm // one-shot data-file fault (ops wf / rf)
 	// bookkeeping for non-triviality
 	mutations, compares int
 }
@@ -393,6 +442,7 @@ func (rr *repRun) run() {
 			<-rr.gate
 		}
 	}
+	w.DiskFn = rr.diskFn
 	simrt.GoNamed(nil, "puncher", replica.CreateHoles)
 
 	size := s.Cfg["blocks"] * blk
@@ -601,6 +651,117 @@ func (rr *repRun) exec(i int, op Op) {
 				rr.viol("C17", "write-applied-in-wrong-state-files", "write while open=%v mode=%s returned %v but changed files", m.open, m.mode, err)
 				return
 			}
+		}
+	case "wf":
+		// a write during which one data-file call fails (disk error, full disk, torn write)
+		off, n := op.A*sect, op.B*sect
+		if off+n > m.size || n <= 0 || !m.open || (m.mode != "RW" && m.mode != "WO") {
+			rr.note("wf", "skip")
+			return
+		}
+		data := stampData(i, op.A, op.B)
+		kind := []simrt.DiskVerdict{simrt.DiskEIO, simrt.DiskENOSPC, simrt.DiskShort}[int(op.C)%3]
+		arm := rr.armDisk(int(op.D), kind)
+		var err error
+		ok := rr.do("wf", func() { _, err = srv.WriteAt(data, off) })
+		rr.disarmDisk()
+		if !ok {
+			return
+		}
+		if !arm.fired {
+			rr.note("wf", "nofault-"+okstr(err))
+			if err != nil {
+				rr.viol(rr.s.Prop, "unexpected-write-error", "write off=%d len=%d in mode %s failed: %v", off, n, m.mode, err)
+				return
+			}
+		} else {
+			rr.res.stat(fmt.Sprintf("fault_disk_%d_fired", int(kind)), 1)
+			rr.note("wf", okstr(err))
+		}
+		if err == nil {
+			// reported success: it counts as an applied write (a success over a failed
+			// disk call shows up as a read mismatch right below)
+			copy(m.live[off:], data)
+			m.dirty = true
+			if m.mode == "RW" {
+				m.revision++
+			}
+			rr.mutations++
+			rr.compareLive("C01", "read-mismatch")
+			return
+		}
+		rr.res.stat("failed_writes_judged", 1)
+		// reported failure: nothing outside the range may change, every byte inside is old or new,
+		// the revision counter stays (checked by afterStep: the model did not count it)
+		got := make([]byte, m.size)
+		var rerr error
+		if !rr.do("fullread", func() { _, rerr = srv.ReadAt(got, 0) }) {
+			return
+		}
+		if rerr != nil {
+			rr.viol("C01", "full-read-failed", "full read after a failed write (%s) failed: %v", arm.what, rerr)
+			return
+		}
+		rr.compares++
+		for j := int64(0); j < m.size; j++ {
+			if got[j] == m.live[j] {
+				continue
+			}
+			if j >= off && j < off+n && got[j] == data[j-off] {
+				continue
+			}
+			rr.viol("C01", "failed-write-damaged-data", "write off=%d len=%d failed (%s: %v) and byte %d reads %#x, neither the old %#x nor (inside the range) the new value", off, n, arm.what, err, j, got[j], m.live[j])
+			return
+		}
+		var rev int64
+		rr.do("getrev", func() { rev = srv.Replica().GetRevisionCounter() })
+		if rev != m.revision {
+			rr.viol("C10", "revision-counter-mismatch", "a write that failed (%s: %v) changed the revision counter %d -> %d", arm.what, err, m.revision, rev)
+			return
+		}
+		// the initiator retries; the retry must succeed and settles the range
+		if !rr.do("w-retry", func() { _, err = srv.WriteAt(data, off) }) {
+			return
+		}
+		if err != nil {
+			rr.viol(rr.s.Prop, "unexpected-write-error", "retry of a failed write off=%d len=%d failed: %v", off, n, err)
+			return
+		}
+		copy(m.live[off:], data)
+		m.dirty = true
+		if m.mode == "RW" {
+			m.revision++
+		}
+		rr.mutations++
+		rr.compareLive("C01", "read-mismatch")
+	case "rf":
+		off, n := op.A*sect, op.B*sect
+		if off+n > m.size || n <= 0 || !m.open {
+			rr.note("rf", "skip")
+			return
+		}
+		buf := make([]byte, n)
+		arm := rr.armDisk(int(op.D), simrt.DiskEIO)
+		var err error
+		ok := rr.do("rf", func() { _, err = srv.ReadAt(buf, off) })
+		rr.disarmDisk()
+		if !ok {
+			return
+		}
+		if arm.fired {
+			rr.res.stat("fault_disk_read_fired", 1)
+		}
+		rr.note("rf", fmt.Sprintf("%v-%s", arm.fired, okstr(err)))
+		if err != nil {
+			if !arm.fired {
+				rr.viol("C01", "unexpected-read-error", "read off=%d len=%d failed: %v", off, n, err)
+			}
+			return
+		}
+		// success (fault not reached, or absorbed): the data must be right
+		rr.compares++
+		if !bytes.Equal(buf, m.live[off:off+n]) {
+			rr.viol("C01", "read-mismatch", "read off=%d len=%d (data-file fault fired=%v %s): %s", off, n, arm.fired, arm.what, describeDiff(buf, m.live[off:off+n]))
 		}
 	case "r":
 		off, n := op.A*sect, op.B*sect
